@@ -47,10 +47,12 @@ VARIABLES i,
           reg1L, reg1T,  \* the link / time of the last REG1 seen on the wire (0 / -1: none)
           ansT,      \* when the receiver's REG2 answer to that REG1 reached the sender (-1: not yet)
           seen2,     \* links that have sent a REG2 carrying the receiver's group id since that answer
-          amn        \* amn[l]: time of a receiver restart after which link l has not been re-registered (-1: none)
+          amn,       \* amn[l]: time of a receiver restart / injected send failure after which link l has not been
+                     \*         re-registered (-1: none)
+          failing    \* failing[l]: the kernel refuses every send on l's current socket (injected), not yet re-created
 
 vars == <<i, n, timeout, profile, est, known, outst, hi, recent, routed, dups, port, conn, heard, kaT, downLo,
-          everUp, repaired, mode, modeT, ackT, kw, kwT, reg1L, reg1T, ansT, seen2, amn>>
+          everUp, repaired, mode, modeT, ackT, kw, kwT, reg1L, reg1T, ansT, seen2, amn, failing>>
 
 Links == 1..MaxL
 Handshake == {"reg1", "reg2", "reg3", "reg_err", "reg_ngp"}
@@ -74,6 +76,7 @@ Fresh(r) ==
     /\ downLo' = [l \in Links |-> -1] /\ everUp' = [l \in Links |-> FALSE] /\ repaired' = [l \in Links |-> -1]
     /\ mode' = r.mode /\ modeT' = 0 /\ ackT' = -1 /\ kw' = [l \in Links |-> -1] /\ kwT' = [l \in Links |-> -1]
     /\ reg1L' = 0 /\ reg1T' = -1 /\ ansT' = -1 /\ seen2' = {} /\ amn' = [l \in Links |-> -1]
+    /\ failing' = [l \in Links |-> FALSE]
 
 (* ---------------- the uplink direction (C01) ---------------- *)
 (* fold over the frames of one step, in the order the receiver socket delivered them *)
@@ -107,7 +110,9 @@ Wire(r) == FoldLeft(LAMBDA acc, f : WireStep(r, acc, f),
 Uplink(r) ==
     LET w == Wire(r)
         \* a datagram still queued on an uplink that is torn down in this step may be lost with it
-        o1 == IF \E l \in 1..n : Torn(r, l) THEN {[x EXCEPT !.must = FALSE] : x \in w.o} ELSE w.o
+        \* ... and so may whatever was routed to an uplink whose socket refuses every send (until it is re-created)
+        Fail1 == [l \in Links |-> (failing[l] \/ (r.ev = "SendFail" /\ r.done /\ r.l = l))]
+        o1 == IF \E l \in 1..n : Torn(r, l) \/ Fail1[l] THEN {[x EXCEPT !.must = FALSE] : x \in w.o} ELSE w.o
     IN /\ outst' = o1 /\ hi' = w.h /\ routed' = w.routed /\ dups' = w.dups
        /\ recent' = {s \in w.sent : r.t - s.t <= 100}
        /\ "C01" \in Check =>
@@ -148,7 +153,7 @@ LinkChecks(r, l) ==
     /\ "C08" \in Check =>
          \* a socket is re-created only after the configured silence, never earlier; retries are spaced
          /\ Torn(r, l) =>
-              /\ heard[l] # -1 => r.t >= heard[l] + timeout
+              /\ (heard[l] # -1 /\ ~failing[l]) => r.t >= heard[l] + timeout     \* ... or its socket send failed
               /\ downLo[l] # -1 => r.t - downLo[l] >= (IF everUp[l] THEN 5000 ELSE 1000)
          \* once the path delivers again the link is connected again in time
          /\ (Rep1(r, l) # -1) => r.t - Rep1(r, l) <= RejoinMs + timeout + Period + r.d
@@ -157,7 +162,8 @@ LinkChecks(r, l) ==
          /\ \A j \in 1..Len(Kas(r, l)) : LET k == Kas(r, l)[j] IN
                 /\ k.len = 38 /\ k.std10 /\ k.ext /\ k.ts <= r.t /\ k.ts >= r.t - r.d
          \* a connected link that is not timed out is never silent for more than two periods
-         /\ (Conn1(r, l) # -1 /\ KaT1(r, l) # -1 /\ Heard1(r, l) # -1 /\ r.t - Heard1(r, l) < timeout)
+         /\ (Conn1(r, l) # -1 /\ KaT1(r, l) # -1 /\ Heard1(r, l) # -1 /\ r.t - Heard1(r, l) < timeout
+               /\ ~failing[l] /\ ~(r.ev = "SendFail" /\ r.l = l))
                 => r.t - KaT1(r, l) <= 2 * Period + r.d
          \* a link that is not connected sends no keepalives
          /\ (conn[l] = -1 /\ Conn1(r, l) = -1 /\ port[l] # 0 /\ ~Torn(r, l)) => Kas(r, l) = <<>>
@@ -202,14 +208,17 @@ HandshakeNext(r) ==
     /\ seen2' = IF f1 # <<>> \/ ansT = -1 THEN {} ELSE seen2 \cup GrpReg2(r)
 
 (* ---- C08: after a receiver restart every uplink is registered again in time ---- *)
-Amn1(r, l) == IF Got3(r, l) THEN -1 ELSE IF r.ev = "Amnesia" THEN r.t ELSE amn[l]
+Amn1(r, l) == IF Got3(r, l) THEN -1
+              ELSE IF r.ev = "Amnesia" \/ (r.ev = "SendFail" /\ r.done /\ r.l = l /\ amn[l] = -1) THEN r.t
+              ELSE amn[l]
+Failing1(r, l) == IF Torn(r, l) THEN FALSE ELSE failing[l] \/ (r.ev = "SendFail" /\ r.done /\ r.l = l)
 
 Upd(f(_, _), old, r) == [l \in Links |-> IF l <= n THEN f(r, l) ELSE old[l]]
 
 LinksOK(r) ==
     /\ \A l \in 1..n : LinkChecks(r, l) /\ WindowChecks(r, l)
     /\ HandshakeChecks(r) /\ HandshakeNext(r)
-    /\ amn' = Upd(Amn1, amn, r)
+    /\ amn' = Upd(Amn1, amn, r) /\ failing' = Upd(Failing1, failing, r)
     /\ "C08" \in Check => \A l \in 1..n : Amn1(r, l) # -1 => r.t - Amn1(r, l) <= RejoinMs + timeout + Period + r.d
     /\ kw' = Upd(Kw1, kw, r) /\ kwT' = Upd(KwT1, kwT, r)
     /\ ackT' = IF AckNow(r) THEN r.t ELSE ackT
@@ -229,6 +238,7 @@ TraceInit ==
     /\ downLo = [l \in Links |-> -1] /\ everUp = [l \in Links |-> FALSE] /\ repaired = [l \in Links |-> -1]
     /\ mode = "enhanced" /\ modeT = 0 /\ ackT = -1 /\ kw = [l \in Links |-> -1] /\ kwT = [l \in Links |-> -1]
     /\ reg1L = 0 /\ reg1T = -1 /\ ansT = -1 /\ seen2 = {} /\ amn = [l \in Links |-> -1]
+    /\ failing = [l \in Links |-> FALSE]
 
 TraceNext ==
     /\ i <= Len(Rec)
